@@ -37,6 +37,10 @@ def I(n):
     return ("int", n)
 
 
+COLLECTION_CTORS = {"%s::%s" % (t, c) for t in ("Vec", "VecDeque", "BTreeMap", "BTreeSet", "HashMap", "HashSet", "IndexMap", "IndexSet") for c in ("new", "with_capacity", "default")} | \
+    {"std::collections::%s::new" % t for t in ("BTreeMap", "BTreeSet", "HashMap", "HashSet", "VecDeque")}
+
+
 class MutRef(tuple):
     """value of `&mut v[a..b]`: behaves as the current content of that part of the variable (a list value); in-place
     list operations applied through it change the variable"""
@@ -95,6 +99,8 @@ class AEval(dtable.Eval):
         self.path_builtins = {}         # function path (as written, or its last two segments) -> callable([argument values])
         self.totokens = None            # callable(value) -> token text or None, for values interpolated in quote!
         self.cfg = None                 # callable(flat text of a cfg!(..) predicate) -> bool
+        self.mut_builtins = {}          # method name -> callable(receiver value, [argument values]) -> (new receiver value, result):
+                                        # methods that change their receiver in place (the receiver expression is re-assigned)
         self.depth = 0
 
     # ---------------------------------------------------------------- values as tokens
@@ -167,9 +173,15 @@ class AEval(dtable.Eval):
                 return self.consts[p]
             if p in ("true", "false"):
                 return B(p == "true")
+            if p in ("Cow::Owned", "Cow::Borrowed", "std::borrow::Cow::Owned", "std::borrow::Cow::Borrowed"):
+                return ("ident-fn", p)
             if p.split("::")[-1][:1].isupper():
                 return C(p.split("::")[-1])
             if p in ("Box::new", "Into::into", "From::from", "Rc::new", "Arc::new", "Some", "Ok", "Err", "std::convert::identity"):
+                return ("ident-fn", p)
+            if p in COLLECTION_CTORS:
+                return ("coll-new", p)
+            if p in ("Cow::Owned", "Cow::Borrowed", "std::borrow::Cow::Owned", "std::borrow::Cow::Borrowed"):
                 return ("ident-fn", p)
             if p.split("::")[-1] in self.funcs and (("::" not in p) or p.startswith("Self::") or p.split("::")[-2][:1].isupper() and p.split("::")[-2] not in ("Box", "Rc", "Arc", "Vec", "String")):
                 return ("fnref", p.split("::")[-1])
@@ -337,6 +349,8 @@ class AEval(dtable.Eval):
             if consume is not None and not (consume in env and env[consume][0] == "list"):
                 consume = None
             it = self.ex(e["iter"], env)
+            if it == DEFAULT:
+                it = L()
             if it[0] != "list":
                 raise Unknown("for over non list")
             for x in it[1]:
@@ -488,6 +502,8 @@ class AEval(dtable.Eval):
                         cenv[kk] = e2[kk]
         if f[0] == "fnref":
             return self.call_fn(f[1], args)
+        if f[0] == "coll-new":
+            return L()
         if f[0] == "builtin-fn":
             return self.builtins[f[1]](args[0] if args else None, list(args[1:]))
         if f[0] == "ident-fn":
@@ -559,12 +575,55 @@ class AEval(dtable.Eval):
             return
         if is_node(target) and target["k"] == "Field":
             cur = self.ex(target["base"], env)
-            if cur[0] == "ctor" and len(cur) > 3:
+            mem = str(target["member"])
+            if cur[0] == "ctor" and len(cur) > 3 and (mem in dict(cur[3]) or not mem.isdigit()):
                 fs = dict(cur[3])
-                fs[str(target["member"])] = newv
+                fs[mem] = newv
                 self._assign_place(target["base"], ("ctor", cur[1], cur[2], tuple(sorted(fs.items()))), env)
                 return
+            if cur[0] == "ctor" and mem.isdigit() and int(mem) < len(cur[2]):
+                a2 = list(cur[2])
+                a2[int(mem)] = newv
+                self._assign_place(target["base"], ("ctor", cur[1], tuple(a2)) + tuple(cur[3:]), env)
+                return
+            if cur[0] == "tuple" and mem.isdigit() and int(mem) < len(cur[1]):
+                a2 = list(cur[1])
+                a2[int(mem)] = newv
+                self._assign_place(target["base"], ("tuple", tuple(a2)), env)
+                return
         raise Unknown("assignment target")
+
+    def _is_place(self, node, env):
+        while is_node(node) and node["k"] in ("Paren", "Unary", "Ref"):
+            node = node["expr"]
+        if is_node(node) and node["k"] == "Path":
+            return node["path"] in env
+        if is_node(node) and node["k"] == "Field":
+            return self._is_place(node["base"], env)
+        return False
+
+    def _collection_op(self, m, cur, vals):
+        """(new list, result) of a mutating collection method on a list / set / map value"""
+        cur = list(cur)
+        if m in ("push", "push_back") and len(vals) == 1:
+            return cur + [vals[0]], UNIT
+        if m == "push_front" and len(vals) == 1:
+            return [vals[0]] + cur, UNIT
+        if m == "insert" and len(vals) == 2 and vals[0][0] == "int" and not (cur and all(x[0] == "tuple" and len(x[1]) == 2 for x in cur)) and vals[0][1] <= len(cur):
+            return cur[:vals[0][1]] + [vals[1]] + cur[vals[0][1]:], UNIT       # Vec::insert(index, value)
+        if m == "insert" and len(vals) == 2:
+            old = [x for x in cur if x[0] == "tuple" and len(x[1]) == 2 and x[1][0] == vals[0]]
+            return [x for x in cur if x not in old] + [T(vals[0], vals[1])], (C("Some", old[0][1][1]) if old else C("None"))
+        if m == "insert" and len(vals) == 1:
+            return (cur, B(False)) if vals[0] in cur else (cur + [vals[0]], B(True))
+        if m == "extend" and len(vals) == 1 and vals[0][0] == "list":
+            return cur + list(vals[0][1]), UNIT
+        if m in ("pop", "pop_back") and not vals:
+            return (cur[:-1], C("Some", cur[-1])) if cur else (cur, C("None"))
+        if m == "clear" and not vals:
+            return [], UNIT
+        raise Unknown("mutation " + m)
+
 
     @staticmethod
     def _coerce_ret(fn, v):
@@ -587,6 +646,10 @@ class AEval(dtable.Eval):
                     return self.path_builtins[key](args)
             if f["path"] in env:
                 return self.apply(env[f["path"]], args)
+            if f["path"] in COLLECTION_CTORS:
+                return L()
+            if f["path"] in ("Cow::Owned", "Cow::Borrowed", "std::borrow::Cow::Owned", "std::borrow::Cow::Borrowed") and len(args) == 1:
+                return args[0]
             if last in self.funcs:
                 v = self.call_fn(last, args)
                 self._write_back(e["args"], env)
@@ -684,6 +747,18 @@ class AEval(dtable.Eval):
                 ref.store(part)
                 env[tgt["path"]] = MutRef(ref.env, ref.name, ref.a, ref.z)
                 return UNIT
+            if is_node(tgt) and tgt["k"] == "Field" and self._is_place(tgt, env):
+                curv = self.ex(tgt, env)
+                if curv[0] == "list":
+                    whole = list(curv[1])
+                    a = lo[1] if lo is not None and lo[0] == "int" else 0
+                    z = hi[1] if hi is not None and hi[0] == "int" else len(whole)
+                    if (lo is not None and lo[0] != "int") or (hi is not None and hi[0] != "int") or not (0 <= a <= z <= len(whole)):
+                        raise Unknown("slice bounds")
+                    args = [self.ex(x, env) for x in e["args"]]
+                    part = self._inplace(m, whole[a:z], args)
+                    self._assign_place(tgt, L(*(whole[:a] + part + whole[z:])), env)
+                    return UNIT
             if is_node(tgt) and tgt["k"] == "Path" and tgt["path"] in env and env[tgt["path"]][0] == "list":
                 whole = list(env[tgt["path"]][1])
                 a = lo[1] if lo is not None and lo[0] == "int" else 0
@@ -698,6 +773,36 @@ class AEval(dtable.Eval):
         if m == "clear" and not e["args"] and is_node(rnode) and rnode["k"] == "Path" and rnode["path"] in env and env[rnode["path"]][0] == "list":
             env[rnode["path"]] = L()
             return UNIT
+        if m in ("push", "push_back", "push_front", "insert", "extend", "pop", "pop_back", "clear") and m not in self.builtins and m not in self.mut_builtins:
+            # on a field of a variable (`cfg.locales.push(x)`), or through `opt.get_or_insert_with(..)` on an Option place
+            tgt = rnode
+            while is_node(tgt) and tgt["k"] in ("Paren", "Unary", "Ref"):
+                tgt = tgt["expr"]
+            if is_node(tgt) and tgt["k"] == "Field" and self._is_place(tgt, env):
+                curv = self.ex(tgt, env)
+                if curv[0] == "list" and not isinstance(curv, MutRef):
+                    vals = [self.ex(a, env) for a in e["args"]]
+                    newl, res = self._collection_op(m, curv[1], vals)
+                    self._assign_place(tgt, L(*newl), env)
+                    return res
+            if is_node(tgt) and tgt["k"] == "MethodCall" and tgt["method"] in ("get_or_insert_with", "get_or_insert", "get_or_insert_default") and self._is_place(tgt["receiver"], env):
+                opt = self.ex(tgt["receiver"], env)
+                if opt[0] == "ctor" and opt[1] in ("Some", "None"):
+                    if opt[1] == "Some":
+                        inner = opt[2][0]
+                    elif tgt["method"] == "get_or_insert_with":
+                        inner = self.apply(self.ex(tgt["args"][0], env), [])
+                    elif tgt["method"] == "get_or_insert":
+                        inner = self.ex(tgt["args"][0], env)
+                    else:
+                        inner = L()
+                    if inner == DEFAULT:
+                        inner = L()
+                    if inner[0] == "list":
+                        vals = [self.ex(a, env) for a in e["args"]]
+                        newl, res = self._collection_op(m, inner[1], vals)
+                        self._assign_place(tgt["receiver"], C("Some", L(*newl)), env)
+                        return res
         if m in ("push", "push_back", "insert", "extend") and is_node(rnode) and rnode["k"] == "Path" and rnode["path"] in env and env[rnode["path"]][0] == "list":
             vals = [self.ex(a, env) for a in e["args"]]
             cur = list(env[rnode["path"]][1])
@@ -706,14 +811,22 @@ class AEval(dtable.Eval):
             elif m == "insert" and len(vals) == 2:
                 cur = [x for x in cur if not (x[0] == "tuple" and len(x[1]) == 2 and x[1][0] == vals[0])] + [T(vals[0], vals[1])]
             elif m == "insert" and len(vals) == 1:
-                if vals[0] not in cur:
+                was_new = vals[0] not in cur
+                if was_new:
                     cur.append(vals[0])
+                env[rnode["path"]] = ("list", tuple(cur))
+                return B(was_new)
             elif m == "extend" and len(vals) == 1 and vals[0][0] == "list":
                 cur.extend(vals[0][1])
             else:
                 raise Unknown("mutation " + m)
             env[rnode["path"]] = ("list", tuple(cur))
             return UNIT
+        if m in ("pop", "pop_back") and not e["args"] and m not in self.builtins and m not in self.mut_builtins and is_node(rnode) and rnode["k"] == "Path" and rnode["path"] in env \
+                and env[rnode["path"]][0] == "list" and not isinstance(env[rnode["path"]], MutRef):
+            cur = list(env[rnode["path"]][1])
+            env[rnode["path"]] = ("list", tuple(cur[:-1]))
+            return C("Some", cur[-1]) if cur else C("None")
         # mutation of a list held in a named field of a variable: `keys.0.insert(k, v)`
         if m in ("push", "insert", "extend") and is_node(rnode) and rnode["k"] == "Field" and is_node(rnode["base"]) and rnode["base"]["k"] == "Path" \
                 and rnode["base"]["path"] in env and env[rnode["base"]["path"]][0] == "ctor":
@@ -758,8 +871,12 @@ class AEval(dtable.Eval):
             return C("Ok", UNIT) if m.startswith("write") else UNIT
         r = self.ex(rnode, env)
         args = [self.ex(a, env) for a in e["args"]]
-        if r == DEFAULT and m in ("iter", "into_iter", "iter_mut", "is_empty", "len", "first", "last", "get"):
+        if r == DEFAULT and m in ("iter", "into_iter", "iter_mut", "is_empty", "len", "first", "last", "get", "contains", "contains_key", "keys", "values"):
             r = L()   # the default of a slice / Vec / map is the empty collection
+        if m in self.mut_builtins:
+            newr, res = self.mut_builtins[m](r, args)
+            self._assign_place(rnode, newr, env)
+            return res
         if m in self.builtins:
             return self.builtins[m](r, args)
         if r[0] == "str":
@@ -812,6 +929,27 @@ class AEval(dtable.Eval):
                 return B(all(self._b(self.apply(args[0], [x])) for x in xs))
             if m == "map":
                 return L(*[self.apply(args[0], [x]) for x in xs])
+            if m == "flat_map":
+                out = []
+                for x in xs:
+                    v = self.apply(args[0], [x])
+                    if v[0] == "list":
+                        out.extend(v[1])
+                    elif v[0] == "ctor" and v[1] in ("Some", "None"):
+                        out.extend(v[2])
+                    else:
+                        raise Unknown("flat_map to a non collection")
+                return L(*out)
+            if m == "flatten" and not args:
+                out = []
+                for v in xs:
+                    if v[0] == "list":
+                        out.extend(v[1])
+                    elif v[0] == "ctor" and v[1] in ("Some", "None", "Ok", "Err"):
+                        out.extend(v[2] if v[1] in ("Some", "Ok") else ())
+                    else:
+                        raise Unknown("flatten of a non collection")
+                return L(*out)
             if m == "filter":
                 return L(*[x for x in xs if self._b(self.apply(args[0], [x]))])
             if m == "filter_map":
@@ -1073,6 +1211,10 @@ class AEval(dtable.Eval):
 
     # ---------------------------------------------------------------- patterns: named fields
     def pat(self, p, v, env):
+        if p["k"] == "PPath" and p["path"] in self.consts:
+            return {} if self.consts[p["path"]] == v else None      # a named constant used as a pattern
+        if p["k"] == "PIdent" and "sub" not in p and p["name"] in self.consts and p["name"].isupper():
+            return {} if self.consts[p["name"]] == v else None
         if p["k"] == "PStruct":
             if v[0] != "ctor":
                 raise Unknown("struct pattern on non constructor")
